@@ -616,9 +616,10 @@ class SWalker(G.Walker):
         if "INVALID_ENUM" in txt:
             return "Enum"
         c0 = strip(cond)
-        if c0.get("kind") == "BinaryOperator" and c0.get("opcode") == "==" and strip(kids(c0)[0]).get("kind") == "DeclRefExpr" and \
-                strip(kids(c0)[0])["referencedDecl"]["name"] == "cg" and self.lit(kids(c0)[1]) == 0:
-            return "Open"
+        for x in or_chain(c0):        # CHECK_FILE_OPEN: `cg == NULL`, possibly `|| cg->mode == CG_MODE_CLOSED`
+            if x.get("kind") == "BinaryOperator" and x.get("opcode") == "==" and strip(kids(x)[0]).get("kind") == "DeclRefExpr" and \
+                    strip(kids(x)[0])["referencedDecl"]["name"] == "cg" and self.lit(kids(x)[1]) == 0 and not negated:
+                return "Open"
         mt = mode_test(cond)
         if mt and not G.has_call(cond) and len(and_chain(cond)) == 1:
             if negated:
